@@ -537,6 +537,53 @@ func (g *gen) lastCloses() {
 	g.w("println(\"B%d lastcloses\", ls%d, lcnt%d)", n, n, n)
 }
 
+// globals: goroutines started on package-level functions that read and write
+// package-level variables, from main, from a non-capturing literal and from a
+// function literal that captures variables (the goroutine's variable table
+// must be the package's, not the spawning closure's). The goroutines are
+// joined one at a time, so the program is race free.
+func (g *gen) globals() {
+	n := g.n
+	k := g.s.Range(1, 4)
+	g.w("// block %d: package-level state updated by goroutines started from closures", n)
+	g.t("var gtot%d int\nvar gname%d = \"g\"\n\nfunc addg%d(v int, done chan bool) {\n\tgtot%d += v\n\tgname%d += \"x\"\n\tdone <- true\n}\n", n, n, n, n, n)
+	g.w("gd%d := make(chan bool%s)", n, g.buf())
+	g.w("base%d := %d", n, g.s.Range(1, 9))
+	g.w("label%d := \"L\"", n)
+	g.w("_ = gd%d", n)
+	for i := 0; i < k; i++ {
+		switch g.s.N(4) {
+		case 0:
+			g.w("go addg%d(%d, gd%d)", n, i+1, n)
+			g.w("<-gd%d", n)
+		case 1:
+			// a literal that captures variables of main
+			g.w("func() {")
+			g.w("\tlabel%d += \"c\"", n)
+			g.w("\tgo addg%d(base%d+%d, gd%d)", n, n, i, n)
+			g.w("\t<-gd%d", n)
+			g.w("}()")
+		case 2:
+			// a literal that captures nothing
+			g.w("func() {")
+			g.w("\tdn := make(chan bool)")
+			g.w("\tgo addg%d(%d, dn)", n, 10+i)
+			g.w("\t<-dn")
+			g.w("}()")
+		case 3:
+			// nested literals, the inner one captures
+			g.w("func() {")
+			g.w("\tinner := base%d * 2", n)
+			g.w("\tfunc() {")
+			g.w("\t\tgo addg%d(inner, gd%d)", n, n)
+			g.w("\t\t<-gd%d", n)
+			g.w("\t}()")
+			g.w("}()")
+		}
+	}
+	g.w("println(\"B%d globals\", gtot%d, gname%d, label%d, base%d)", n, n, n, n, n)
+}
+
 // nonTerminating appends the never-ending tail used by the cancellation
 // check. It returns a short name of the construct.
 func (g *gen) nonTerminating() string {
@@ -564,8 +611,18 @@ func (g *gen) nonTerminating() string {
 	g.w("blk%d := make(chan int)", n)
 	g.w("blk%db := make(chan int)", n)
 	g.w("_, _ = blk%d, blk%db", n, n)
-	kind := []string{"loop", "loop-calls", "recursion", "send", "recv", "select", "select-default", "select-empty", "range", "nested-loops", "child-work"}[g.s.N(11)]
+	kind := []string{"loop", "loop-calls", "recursion", "send", "recv", "select", "select-default", "select-empty", "range", "nested-loops", "child-work",
+		"panic-deferred-loop", "panic-recovered-deferred-recv", "runtime-panic-recovered-deferred-loop", "panic-deferred-select"}[g.s.N(15)]
 	switch kind {
+	case "panic-deferred-loop":
+		// a deferred function that never returns runs while the panic is in flight
+		g.w("defer func() {\n\tfor {\n\t}\n}()\npanic(\"boom\")")
+	case "panic-recovered-deferred-recv":
+		g.w("defer func() {\n\trecover()\n\t<-blk%d\n}()\npanic(\"boom\")", n)
+	case "runtime-panic-recovered-deferred-loop":
+		g.w("defer func() {\n\trecover()\n\tx := 0\n\tfor {\n\t\tx = spin(x)\n\t}\n}()\nvar nilm map[string]int\nnilm[\"a\"] = 1")
+	case "panic-deferred-select":
+		g.w("defer func() {\n\tselect {\n\tcase <-blk%d:\n\tcase blk%db <- 1:\n\t}\n}()\npanic(blk%d)", n, n, n)
 	case "loop":
 		g.w("for {\n}")
 	case "loop-calls":
@@ -651,7 +708,10 @@ func Gen(s *choice.Stream, o Options) *Prog {
 	for i := 0; i < nb; i++ {
 		g.n = i
 		var name string
-		switch s.Pick(3, 3, 2, 2, 3, 3, 2, 3, 2, 2, 2) {
+		switch s.Pick(3, 3, 2, 2, 3, 3, 2, 3, 2, 2, 2, 3) {
+		case 11:
+			name = "globals"
+			g.globals()
 		case 0:
 			name = "pipeline"
 			g.pipeline()
